@@ -73,6 +73,18 @@ def gen(rng, tier):
     for t in sc['tasks']:
         t['preplaced'] = False
         t['runtime'] = min(t['runtime'], 0.5)
+    if rng.random() < 0.2:
+        # all placements supplied by the application, ranks listed in an
+        # arbitrary order (a node may be revisited later in the rank order)
+        for t in sc['tasks']:
+            t['preplaced'] = True
+            t['at'] = 0.0
+            t['shuffle'] = rng.randint(1, 10 ** 6)
+            t['descr'].pop('ranks_per_node', None)
+            t['descr'].pop('tags', None)
+            g = t['descr'].get('gpus_per_rank') or 0
+            if g != int(g):
+                t['descr']['gpus_per_rank'] = 0
     sc['c09'] = True
     sc['preempt'] = 0.0
     return sc
@@ -172,10 +184,17 @@ def parse(name, cmd, files):
         out['nprocs'] = int(v)
         nl = opt('--nodelist', '=')
         nf = opt('--nodefile', '=')
+        names = None
         if nl:
-            out['node_set'] = set(nl.split(','))
+            names = nl.split(',')
         elif nf:
-            out['node_set'] = set((files.get(nf) or '').strip().split(','))
+            names = (files.get(nf) or '').strip().split(',')
+        if names is not None:
+            out['node_set'] = set(names)
+            # every node is named once, and `--nodes` counts them
+            out['node_dups'] = len(names) - len(set(names))
+            if opt('--nodes') is not None:
+                out['n_nodes'] = int(opt('--nodes'))
     elif n == 'IBRUN':
         # `ibrun -n N -o O`: the host list names every node of the allocation
         # IBRUN_TASKS_PER_NODE times (allocation order); the N processes go
@@ -305,6 +324,10 @@ def oracle(sim, sc, st):
                 sim.violation(PROP, 'node_omitted', site, det)
             elif got != want_nodes:
                 sim.violation(PROP, 'node_counts', site, det)
+        if p.get('node_dups') or (p.get('n_nodes') is not None and
+                                  p['node_set'] is not None and
+                                  p['n_nodes'] != len(p['node_set'])):
+            sim.violation(PROP, 'node_counts', site, det)
         if p['node_set'] is not None:
             if p['node_set'] - set(want_nodes):
                 sim.violation(PROP, 'node_outside', site, det)
